@@ -41,3 +41,18 @@ Theorem C08_variants :
          parse v1 t (gi_rules gi) act fuel inp = parse v2 t (gi_rules gi) act fuel inp.
 Proof. exact PipelineRun.pipeline_variants_agree. Qed.
 Print Assumptions C08_variants.
+
+From YG Require Import LRBase CompleteDriver LR0Build Resolve PackCore Pipeline PipelineRun Drivers DriverSim Values Front WfGrammar YParser EndToEnd EndToEndWf.
+Close Scope Z_scope.
+Open Scope nat_scope.
+
+(* from the bytes of the grammar file: for the tables the generator computes for a text, the drivers of all variants (global and object form, packed and plain table) return the same result on every input, once the packed lookups agree with the matrix (C05_from_the_text) *)
+Theorem C08_from_the_text :
+  forall (s : list Ascii.ascii) (b : built) (t : tables),
+         generate_text s = GOk b t ->
+         packed_agrees (b_gi b) t ->
+         forall (v1 v2 : variant) (act : semact) (fuel : nat) (inp : list tok),
+         (forall x : tok, In x inp -> fst x < gi_nsyms (b_gi b)) ->
+         parse v1 t (gi_rules (b_gi b)) act fuel inp = parse v2 t (gi_rules (b_gi b)) act fuel inp.
+Proof. exact EndToEndWf.text_variants_agree. Qed.
+Print Assumptions C08_from_the_text.
